@@ -30,6 +30,10 @@ type chanList struct {
 	// amount. This helps distinguish otherwise identical
 	// server/client muxes
 	offset uint32
+
+	// dropped is set by dropAll. A channel added afterwards will never be
+	// closed by the mux loop, so its creator has to close it.
+	dropped bool
 }
 
 // add stores the given channel and assigns its localId while holding the
@@ -83,7 +87,15 @@ func (c *chanList) dropAll() []*channel {
 		r = append(r, ch)
 	}
 	c.chans = nil
+	c.dropped = true
 	return r
+}
+
+// isDropped reports whether dropAll has been called.
+func (c *chanList) isDropped() bool {
+	c.Lock()
+	defer c.Unlock()
+	return c.dropped
 }
 
 // mux represents the state for the SSH connection protocol, which
